@@ -9,6 +9,8 @@
 //                  a REAL `TableManager`; every event calls the real glue function; timers are
 //                  observed as "slot holds a sender whose task is still alive" and fired by sending
 //                  on the oneshot (the code's own `fire_gr_timer` path), so no real time passes.
+//   (glue-tcp ev ...)  the same world, but the peer's session is a real session task on a loopback TCP
+//                  connection and the harness is the remote speaker (c10t.rs)
 //   (pure in ...)  the pure `GrState` machine: outputs and `is_peer_restarting` per input.
 #![allow(dead_code, unused_imports)]
 
@@ -260,6 +262,10 @@ fn llgr_armed(ctx: &PeerContext) -> Vec<u64> {
 }
 
 fn observe(w: &World) -> Term {
+    observe_up(w, w.session.is_some())
+}
+
+fn observe_up(w: &World, up: bool) -> Term {
     let mut routes: Vec<(u64, u64, bool, bool, bool, bool)> = Vec::new();
     for f in 0..MAX_FAM {
         for d in w
@@ -311,7 +317,7 @@ fn observe(w: &World) -> Term {
         Term::boolean(gr_armed(&ctx)),
         Term::tag("llt", llgr_armed(&ctx).into_iter().map(Term::nat).collect()),
         Term::boolean(ctx.gr_state.is_peer_restarting()),
-        Term::boolean(w.session.is_some()),
+        Term::boolean(up),
     ])
 }
 
@@ -666,10 +672,33 @@ fn run_pure(ins: Vec<crate::gr::GrInput>) -> String {
     Term::tag("ptrace", steps).to_string()
 }
 
+#[path = "/verif/harness/daemon/c10t.rs"]
+mod tcp;
+
 fn run_case(line: &str) -> String {
     let Some(t) = Term::parse(line) else {
         return "(bad-case)".into();
     };
+    if let Some(evs) = t.tagged("glue-tcp") {
+        let Some(evs) = evs.iter().map(ev_of).collect::<Option<Vec<_>>>() else {
+            return "(bad-case)".into();
+        };
+        if !tcp::tcp_ok(&evs) {
+            return "(bad-case)".into();
+        }
+        let rt = tokio::runtime::Builder::new_current_thread()
+            .enable_all()
+            .build()
+            .unwrap();
+        let out = rt.block_on(async {
+            match tokio::time::timeout(Duration::from_secs(60), tcp::run_tcp(evs)).await {
+                Ok(s) => s,
+                Err(_) => "(tcp-timeout)".into(),
+            }
+        });
+        rt.shutdown_background();
+        return out;
+    }
     let short = t.tagged("glue-short").is_some();
     if let Some(evs) = t.tagged("glue").or(t.tagged("glue-short")) {
         let Some(evs) = evs.iter().map(ev_of).collect::<Option<Vec<_>>>() else {
